@@ -24,4 +24,13 @@ def instances():
                         tier="quick" if al else "thorough", quick_also=["C09"] if (rl, al) == (0, 1) else [],
                         bounds="put(p, x) on a table of 2 integers; receiver is a %s, argument a %s" % ("variable" if rl else "temporary", "variable" if al else "temporary"),
                         inputs="value, position"))
+    IT = CORE_TUS + ["blocc/expression_item.cpp", "blocc/member/member_insert.cpp", "blocc/expression_member.cpp"]
+    for nr in (0, 1):
+        out.append(Inst(id="c09.item%s" % (".nullrecv" if nr else ""), props=["C09", "C01"], harness="h_item.cpp", entry="c09_item", tus=IT, defs=["VX_NULLRECV=%d" % nr],
+                        stubs=PUT_STUBS, unwind=4, unwindset=["_ZNSt8__detail18__to_chars_10_implIjEEvPcjT_.0:7", "_ZNSt8__detail14__to_chars_lenIjEEjT_i.0:7"], timeout=600, quick_also=["C01"] if not nr else [], tier="quick" if not nr else "thorough",
+                        bounds="t@N on a tuple of 2 items (integer, boolean)%s; every index" % (" that is null" if nr else ""), inputs="index (32 bits), item values, lvalue flag"))
+    for same in (0, 1):
+        out.append(Inst(id="c09.insert.structure.%s" % ("same" if same else "other"), props=["C09", "C01"], harness="h_item.cpp", entry="c09_insert_structure", tus=IT, defs=["VX_SAME=%d" % same],
+                        stubs=PUT_STUBS, unwind=4, timeout=900, tier="quick" if not same else "thorough",
+                        bounds="insert(0, x) into a table of one {integer, boolean} row; x a tuple of %s structure whose type is opaque at compile time" % ("the same" if same else "another"), inputs="item values"))
     return out
